@@ -1,8 +1,13 @@
 (* C11  Substitution and index shifting are capture-avoiding.
-   Only statements: each theorem is closed by `exact <lemma>`; the `Check` pins the statement. *)
+   The statement itself - "on hole-free terms, shifting and opening agree with capture-avoiding substitution
+   on named terms" - is C11_open_is_named_substitution / C11_shift_is_context_extension below (Spec/Named.v:
+   named terms, contexts of names, translation to indices; Proofs/NamedProofs.v), for the whole term language
+   with multi-definition groups, at any binder depth, under the variable convention (no name bound inside the
+   term is free in the inserted term) that makes textual substitution capture-avoiding. The algebraic laws
+   follow. Only statements: each theorem is closed by `exact <lemma>`; the `Check` pins the statement. *)
 From Coq Require Import List ZArith Bool.
 Import ListNotations.
-Require Import Gram.Model.Term Gram.Model.DeBruijn Gram.Proofs.DeBruijnLaws.
+Require Import Gram.Model.Term Gram.Model.DeBruijn Gram.Proofs.DeBruijnLaws Gram.Spec.Named Gram.Proofs.NamedProofs.
 
 Theorem C11_sshift_zero : forall t c, sshift t c 0 = Some t.
 Proof. exact sshift_zero. Qed.
@@ -49,3 +54,41 @@ Theorem C11_fvl_occurs : forall t c v, In v (fvl t c) <-> occurs t c v = true.
 Proof. exact fvl_occurs. Qed.
 Check C11_fvl_occurs : forall t c v, In v (fvl t c) <-> occurs t c v = true.
 Print Assumptions C11_fvl_occurs.
+
+Theorem C11_open_is_named_substitution : forall x u G t B,
+  pos x B = None ->
+  (forall y, In y (bnames t) -> nfree y u = false) ->
+  (forall y, In y B -> nfree y u = false) ->
+  dbt (B ++ G) (nsubst x u t) = open (dbt (B ++ x :: G) t) (length B) (dbt G u) (length B).
+Proof. exact open_is_substitution. Qed.
+Check C11_open_is_named_substitution : forall x u G t B,
+  pos x B = None ->
+  (forall y, In y (bnames t) -> nfree y u = false) ->
+  (forall y, In y B -> nfree y u = false) ->
+  dbt (B ++ G) (nsubst x u t) = open (dbt (B ++ x :: G) t) (length B) (dbt G u) (length B).
+Print Assumptions C11_open_is_named_substitution.
+
+Theorem C11_shift_is_context_extension : forall u L B G,
+  (forall z, pos z B <> None -> nfree z u = true -> pos z L <> None) ->
+  dbt (L ++ B ++ G) u = ushift (dbt (L ++ G) u) (length L) (length B).
+Proof. exact shift_is_weakening. Qed.
+Check C11_shift_is_context_extension : forall u L B G,
+  (forall z, pos z B <> None -> nfree z u = true -> pos z L <> None) ->
+  dbt (L ++ B ++ G) u = ushift (dbt (L ++ G) u) (length L) (length B).
+Print Assumptions C11_shift_is_context_extension.
+
+Theorem C11_named_terms_are_hole_free : forall t G, hole_free (dbt G t) = true.
+Proof. exact dbt_hole_free. Qed.
+Check C11_named_terms_are_hole_free : forall t G, hole_free (dbt G t) = true.
+Print Assumptions C11_named_terms_are_hole_free.
+
+(* non-vacuity, and what the side condition is for: substituting `y + 1` for x in `z => x + z` (z not free in
+   the inserted term) commutes with the translation; with the binder named y instead it would be captured, and
+   the theorem's hypothesis fails exactly there *)
+Example C11_named_example :
+  let u := NBin OSum (NVar 1) (NLit 1) in                       (* y + 1,  y = 1 *)
+  let t := NLam false 2 NInt (NBin OSum (NVar 0) (NVar 2)) in   (* z => x + z, x = 0, z = 2 *)
+  (forall y, In y (bnames t) -> nfree y u = false) /\
+  dbt [1] (nsubst 0 u t) = open (dbt [0; 1] t) 0 (dbt [1] u) 0 /\
+  dbt [1] (nsubst 0 u t) = TLam false TInt (TBin OSum (TBin OSum (TVar 1) (TLit 1)) (TVar 0)).
+Proof. cbn. split; [intros y [<-|[]]; reflexivity | split; reflexivity]. Qed.
